@@ -105,7 +105,8 @@ fn burst_strategy() -> BoxedStrategy<FaultCase> {
 /// flusher) in between, so retirement passes run again and again during the outage.
 fn chain_strategy() -> BoxedStrategy<FaultCase> {
     use crate::ops::{key_at, Config, DevSize, LenClass, TsSpec, ValKind, ValSpec};
-    let round = (proptest::collection::vec((any::<u16>(), 1u8..4, 1u16..300), 1..5), prop_oneof![3 => Just(0u8), 2 => Just(1u8), 1 => Just(2u8)]);
+    // (key, repetitions, length, through the zero-copy API)
+    let round = (proptest::collection::vec((any::<u16>(), 1u8..4, 1u16..300, any::<bool>()), 1..5), prop_oneof![3 => Just(0u8), 2 => Just(1u8), 1 => Just(2u8)]);
     (
         6usize..16,
         prop_oneof![Just(4u8), Just(6u8), Just(8u8), Just(16u8), Just(2u8)],
@@ -119,14 +120,14 @@ fn chain_strategy() -> BoxedStrategy<FaultCase> {
         .prop_map(|(nkeys, visible_cpus, plain_io, t0_offset, rounds, count, site, slack)| {
             let cfg = Config { persistent: true, version: 3, cache: false, ttl: false, dev: DevSize::Normal, max_memory: None, plain_io, legacy_plain_meta: false, visible_cpus };
             let keys: Vec<Vec<u8>> = (0..nkeys).map(|i| format!("c{i:02}").into_bytes()).collect();
-            let put = |j: usize, l: u16| Op::Insert { k: key_at(j, nkeys), v: ValSpec { len: LenClass::Small(l), kind: ValKind::Stamp }, ts: TsSpec::Auto, bytes: false };
-            let mut ops: Vec<Op> = (0..nkeys).map(|j| put(j, 40)).collect();
+            let put = |j: usize, l: u16, bytes: bool| Op::Insert { k: key_at(j, nkeys), v: ValSpec { len: LenClass::Small(l), kind: ValKind::Stamp }, ts: TsSpec::Auto, bytes };
+            let mut ops: Vec<Op> = (0..nkeys).map(|j| put(j, 40, j % 3 == 0)).collect();
             ops.push(Op::Flush);
             for (updates, end) in rounds {
-                for (k, times, l) in updates {
+                for (k, times, l, bytes) in updates {
                     let j = (k as usize * nkeys) >> 16;
                     for t in 0..times {
-                        ops.push(put(j, l + t as u16));
+                        ops.push(put(j, l + t as u16, bytes));
                     }
                 }
                 ops.push(Op::Flush);
@@ -193,6 +194,11 @@ fn judge_device(run: &WorkloadRun, what: &str, notes: &mut FaultNotes) -> Result
         }
     }
     Ok(())
+}
+
+thread_local! {
+    /// C05 stage: judge the block partition at the acknowledged flush that follows the outage
+    pub static CHECK_PARTITION: std::cell::Cell<bool> = const { std::cell::Cell::new(false) };
 }
 
 pub fn run_with_plan(case: &Case, plan: Option<&PlanSpec>, n_estimate: usize, notes: &mut FaultNotes, stats_out: &mut CaseStats) -> Result<(), (String, String)> {
@@ -306,6 +312,14 @@ pub fn run_with_plan(case: &Case, plan: Option<&PlanSpec>, n_estimate: usize, no
             Ok(()) => {
                 trace::mark(&dev, Mark::FlushOk { step });
                 notes.healed_flush_ok = true;
+                if CHECK_PARTITION.with(|c| c.get()) {
+                    // C05 at the first acknowledged flush after the outage: nothing leaked, nothing
+                    // doubly owned, counters exact
+                    let snap = runner.store.as_ref().unwrap().verif_snapshot();
+                    if let Some((sig, msg)) = crash::partition_problem(&snap) {
+                        result = Err((format!("after-outage-{sig}"), format!("at the first acknowledged flush after {} injected I/O failures: {msg}", notes.injected)));
+                    }
+                }
                 let run = snapshot_run(&dev, &hist, runner.model.now);
                 if let Err(e) = judge_device(&run, "after the flush on the healed device returned Ok", notes) {
                     result = Err(e);
@@ -351,8 +365,7 @@ pub fn run_with_plan(case: &Case, plan: Option<&PlanSpec>, n_estimate: usize, no
                 } else {
                     // OutOfSpace can be justified on a full device
                     let snap = runner.store.as_ref().unwrap().verif_snapshot();
-                    let largest = snap.free_runs.iter().map(|(_, n)| *n).max().unwrap_or(0);
-                    let unfit = snap.records.iter().filter(|r| r.sector == 0).any(|r| layout::record_blocks(snap.format_version, r.key.len(), r.value_len) as u64 > largest);
+                    let (unfit, _) = seq::pending_cannot_fit(&snap);
                     if !(kind == model::ErrKind::OutOfSpace && unfit) {
                         result = Err(("flush-fails-on-healthy-device".into(), format!("the device works again but flush() returned {e:?}")));
                     }
@@ -480,5 +493,93 @@ pub fn run(tier: Tier, seed: u64, replay: Option<&str>) -> i32 {
         ev.set("failure", json!({"signature": sig, "message": msg}));
     }
     ev.write();
+    code
+}
+
+/// C05 (clause "nothing leaks", failure paths): generated fault plans that heal - transient,
+/// site-filtered (record / marker / journal writes) - over free-form workloads and chains of
+/// updates; at the first acknowledged flush after the outage the block partition must be exact.
+pub fn healed_partition_campaign(tier: Tier, seed: u64) -> (i32, serde_json::Value) {
+    let evaluations = Arc::new(AtomicU64::new(0));
+    let healed = Arc::new(AtomicU64::new(0));
+    let nt = Arc::new(Mutex::new(std::collections::HashSet::<u64>::new()));
+    let (e2, h2, n2) = (evaluations.clone(), healed.clone(), nt.clone());
+    let check = move |fc: &FaultCase, counting: bool| -> Result<(), String> {
+        let mut agg = Vec::new();
+        CHECK_PARTITION.with(|c| c.set(true));
+        let r = judge_case(fc, &mut agg);
+        CHECK_PARTITION.with(|c| c.set(false));
+        if counting {
+            let fp = env::fnv(&serde_json::to_vec(fc).unwrap());
+            for (i, n) in agg.iter().enumerate() {
+                e2.fetch_add(1, Ordering::Relaxed);
+                if n.healed_flush_ok && n.injected > 0 {
+                    h2.fetch_add(1, Ordering::Relaxed);
+                    n2.lock().unwrap().insert(fp ^ (i as u64 + 1));
+                }
+            }
+        }
+        match r {
+            Err((sig, msg)) if sig.starts_with("after-outage-") => Err(format!("[{sig}] {msg}")),
+            // everything else is C09's business
+            _ => Ok(()),
+        }
+    };
+    // transient faults only (a poisoned device never reaches an acknowledged flush in this process)
+    let transient = |mut fc: FaultCase| {
+        for p in &mut fc.plans {
+            if p.count == 0 {
+                p.count = 3;
+            }
+            p.second = None;
+        }
+        fc
+    };
+    let strat = proptest::strategy::Union::new_weighted(vec![(2, case_strat(tier).prop_map(transient).boxed()), (3, chain_strategy().prop_map(transient).boxed())]).boxed();
+    let found = run_lanes(strat, tier.pick(160, 2400), 120, seed ^ 0xC05F, env::threads(), check);
+    env::wait_reaper();
+    let mut code = 0;
+    let mut failure = serde_json::Value::Null;
+    if let Some((fc, msg)) = found {
+        let sig = msg.strip_prefix('[').and_then(|m| m.split(']').next()).unwrap_or("after-outage").to_string();
+        let replay = json!({"property": "C05", "engine": "fault_partition", "signature": sig, "message": msg, "case": serde_json::to_value(&fc).unwrap()});
+        if !env::report_violation("C05", &sig, &replay) {
+            code = 1;
+            eprintln!("fxv: C05 (after an outage): {msg}");
+        }
+        failure = json!({"signature": sig, "message": msg});
+    }
+    let summary = json!({
+        "plans": evaluations.load(Ordering::Relaxed),
+        "acknowledged_flushes_after_an_outage": healed.load(Ordering::Relaxed),
+        "distinct_nontrivial": nt.lock().unwrap().len(),
+        "rule": "the fault-plan workloads of C09 (free-form workloads and chains of updates on 1-8 workers) under transient failures - any call, data-area / record / marker / journal writes, fsyncs, 1-9 failing calls; after the device works again the first acknowledged flush is a quiescent point: the snapshot must partition the data area exactly (no block leaked by a failed batch's clean-up, none doubly owned, usage counter equal to the live blocks). Non-trivial: a (workload, plan) run in which a fault was consumed and the flush on the healed device was acknowledged.",
+        "failure": failure,
+    });
+    (code, summary)
+}
+
+pub fn replay_healed_partition(path: &str) -> i32 {
+    let doc: serde_json::Value = serde_json::from_str(&std::fs::read_to_string(path).expect("read")).expect("json");
+    let fc: FaultCase = serde_json::from_value(doc["case"].clone()).expect("case");
+    let mut code = 0;
+    for _ in 0..3 {
+        CHECK_PARTITION.with(|c| c.set(true));
+        let r = judge_case(&fc, &mut Vec::new());
+        CHECK_PARTITION.with(|c| c.set(false));
+        if let Err((sig, msg)) = r {
+            if sig.starts_with("after-outage-") {
+                println!("replay: [{sig}] {msg}");
+                code = 1;
+                break;
+            }
+        }
+    }
+    env::wait_reaper();
+    if code == 1 {
+        println!("VIOLATION property=C05 replay={path}");
+    } else {
+        println!("replay: the partition is exact after the outage on this tree");
+    }
     code
 }
